@@ -289,6 +289,8 @@ class AffineEval:
             # caller under the name '<iter:var>'
             key = '<iter:%s>' % norm(s.target)
             if key not in self.env:
+                key = '<iter>'
+            if key not in self.env:
                 raise NotAffine('for-loop over %s' % norm(s.iter))
             self.env[norm(s.target)] = self.env[key]
             self.run(s.body)
